@@ -246,6 +246,10 @@ func TestVerifReplay(t *testing.T) {
 		for _, ch := range alphabet { gen(append(cur, ch), n-1) }
 	}
 	gen(nil, 5)
+	// characters a reader might be tempted to treat specially: byte-order mark, NUL, U+FFFE/U+FFFF, line and paragraph separators, a non-BMP character
+	for _, ch := range []rune{0xFEFF, 0, 0xFFFE, 0xFFFF, 0x2028, 0x2029, 0x85, 0x1F600} {
+		contents = append(contents, []rune{ch}, []rune{ch, 'a', 10, ch}, []rune{'a', ch, 13, 10}, []rune{ch, ch})
+	}
 	mk := func(c []rune, k int) *StringScanner {
 		s := NewStringScanner(string(c))
 		for i := 0; i < k; i++ { s.Read() }
@@ -276,7 +280,7 @@ func TestVerifReplay(t *testing.T) {
 	}
 }
 '''
-        return 'io', src, 'all contents over {a, LF, CR} up to length 5 x all cursors x all scanner operations'
+        return 'io', src, 'all contents over {a, LF, CR} up to length 5 (plus contents with a byte-order mark, NUL, U+FFFE, U+FFFF, U+2028, U+2029, U+0085, a non-BMP character) x all cursors x all scanner operations'
 
     def bounds(self):
         if self.func.short == 'NewStringScanner':
@@ -1155,7 +1159,7 @@ func TestVerifReplay(t *testing.T) {
 		"csv": func() tokenizers.ITokenizer { return csv.NewCsvTokenizer() },
 		"mustache": func() tokenizers.ITokenizer { return mtok.NewMustacheTokenizer() },
 	}
-	alphabet := []rune{'a', '1', '-', '.', '/', '*', ' ', '"', '\\'', '\\n', '<', '=', '>', '{', '}', 'e', 0xe9}
+	alphabet := []rune{'a', '1', '-', '.', '/', '*', ' ', '"', '\\'', '\\n', '<', '=', '>', '{', '}', 'e', 0xe9, 0x2212}
 	var inputs []string
 	%(extra)s
 	var gen func(cur []rune, n int)
@@ -1221,7 +1225,7 @@ class TokenizerFamily(Family):
 
     @classmethod
     def bounded_source(cls, prog, fname):
-        return 'csv', cls.source('', 4), 'every input up to length 4 over a 17-character alphabet (letters, digit, sign, dot, slash, star, blank, quotes, LF, <=>, braces, e, e-acute) x the four built-in tokenizers, no options'
+        return 'csv', cls.source('', 4), 'every input up to length 4 over an 18-character alphabet (letters, digit, sign, the typographic minus U+2212, dot, slash, star, blank, quotes, LF, <=>, braces, e, e-acute) x the four built-in tokenizers, no options'
 
 
 SYMBOL_TEST = '''package generic
@@ -1372,9 +1376,40 @@ func TestVerifReplay(t *testing.T) {
 			}
 		}
 	}
+	streams(t)
 }
 
 func containsRune(s string, q rune) bool { for _, r := range s { if r == q { return true } }; return false }
+
+// the same through whole tokenizers with string decoding on (as both parsers use them): the encoded form - of the empty
+// string too - comes back as one token whose value is the original string
+func streams(t *testing.T) {
+	abc := []rune{'a', 39, 34, 0xe9}
+	var strs []string
+	var gen func(cur []rune, n int)
+	gen = func(cur []rune, n int) { strs = append(strs, string(cur)); if n == 0 { return }; for _, c := range abc { gen(append(cur, c), n-1) } }
+	gen(nil, 3)
+	type tcase struct { name string; tk tokenizers.ITokenizer; st tokenizers.IQuoteState; quotes []rune }
+	ct := csv.NewCsvTokenizer()
+	ct.SetQuoteSymbols([]rune{34, 39})
+	cases := []tcase{{"expression", ctok.NewExpressionTokenizer(), ctok.NewExpressionQuoteState(), []rune{39, 34}}, {"csv", ct, csv.NewCsvQuoteState(), []rune{34, 39}}}
+	for _, c := range cases {
+		c.tk.SetDecodeStrings(true)
+		for _, q := range c.quotes {
+			for _, s := range strs {
+				enc := c.st.EncodeString(s, q)
+				for _, tail := range []string{"", " x"} {
+					toks := c.tk.TokenizeBuffer(enc + tail)
+					if len(toks) == 0 || toks[0].Value() != s || (toks[0].Type() != tokenizers.Quoted && toks[0].Type() != tokenizers.Word) {
+						var got []string
+						for _, tk := range toks { got = append(got, tk.Value()) }
+						t.Fatalf("%%s tokenizer, decoding on: %%q reads as %%q, the first token should be the string %%q", c.name, enc+tail, got, s)
+					}
+				}
+			}
+		}
+	}
+}
 '''
 
 
@@ -1385,7 +1420,7 @@ class QuoteFamily(Family):
 
     @classmethod
     def bounded_source(cls, prog, fname):
-        return 'csv', QUOTE_TEST % {'n': 4}, 'all strings up to length 4 over {a, single quote, double quote, e-acute, U+00AB} x quote characters {single, double, U+00AB} x the three quote states'
+        return 'csv', QUOTE_TEST % {'n': 4}, 'all strings up to length 4 over {a, single quote, double quote, e-acute, U+00AB} x quote characters {single, double, U+00AB} x the three quote states; the encoded strings (the empty one too) read back through the expression and CSV tokenizers with decoding on'
 
 
 OPTIONS_TEST = '''package csv_test
@@ -1635,6 +1670,8 @@ func (p *rp) p6() bool {
 	t := p.peek()
 	switch {
 	case t == "1" || t == "'s'": p.pos++; p.out = append(p.out, "C:"+t)
+	// (a double-quoted identifier is a variable whatever it spells: "is", "not", "null" name variables, they are not keywords)
+	case strings.HasPrefix(t, "\"") && len(t) > 2: p.pos++; p.out = append(p.out, "V:"+strings.Trim(t, "\""))
 	case (t == "a" || t == "f") && !(p.pos+1 < len(p.toks) && p.toks[p.pos+1] == "("): p.pos++; p.out = append(p.out, "V:"+t)
 	case t == "(": p.pos++; if !p.p0() { return false }; if p.peek() != ")" { return false }; p.pos++
 	case t == "a" || t == "f":
@@ -1665,6 +1702,7 @@ func TestVerifReplay(t *testing.T) {
 	gen([]string{"1", "a", "-", "*", "(", ")", "[", "]", ",", "f"}, nil, %(l2)d)
 	gen([]string{"1", "f", "(", ")", ","}, nil, %(l3)d)
 	gen([]string{"a", "IS", "NOT", "NULL", "IN", "LIKE", "1"}, nil, %(l3)d)
+	gen([]string{"a", "\"is\"", "\"not\"", "\"null\"", "IS", "NOT", "NULL", "1", "-"}, nil, 4)
 	%(extra)s
 	parser := parsers.NewExpressionParser()
 	bad := 0
@@ -1698,6 +1736,13 @@ func TestVerifReplay(t *testing.T) {
 			if strings.Join(got, " ") != want { t.Errorf("%%q compiled to [%%s], the post-order of its syntax tree is [%%s]", expr, strings.Join(got, " "), want); bad++ }
 		}()
 		if bad > 8 { t.Fatalf("stopping after %%d failures", bad) }
+	}
+	// "no input is silently reinterpreted ... by ... substituting ... tokens": a numeric literal that does not fit its type is
+	// rejected, the largest that fits is accepted
+	for lit, ok := range map[string]bool{"9223372036854775807": true, "9223372036854775808": false, "99999999999999999999 + 1": false, "1e999": false, "2 * 1e40": false, "3.5e38": false, "3.4e38": true, "1e-60": true} {
+		err := parser.SetExpression(lit)
+		if ok && err != nil { t.Errorf("%%q was rejected: %%v", lit, err) }
+		if !ok && err == nil { t.Errorf("%%q is out of range but was accepted (compiled to %%v)", lit, parser.ResultTokens()[0].Value()) }
 	}
 }
 '''
@@ -2358,6 +2403,11 @@ func TestVerifReplay(t *testing.T) {
 		dv := m.DefaultVariables()
 		if len(dv) != len(want) { t.Errorf("%q: default variables %v, names in the template %v", tpl, dv, want); bad++ }
 		for _, w := range want { found := false; for k := range dv { if strings.EqualFold(k, w) { found = true } }; if !found { t.Errorf("%q: no default variable for %s (%v)", tpl, w, dv); bad++ } }
+		// "exactly one entry per such name compared case-insensitively, keeping entries ... already there": the same template
+		// set again on the same object with every name in the other letter case adds nothing
+		tpl2 := strings.NewReplacer("{{a}}", "{{A}}", "{{{B}}}", "{{{b}}}", "{{#a}}", "{{#A}}", "{{/a}}", "{{/A}}", "{{^c}}", "{{^C}}", "{{/c}}", "{{/C}}", "{{#if d}}", "{{#if D}}", "{{#unless a}}", "{{#unless A}}").Replace(tpl)
+		if e := m.SetTemplate(tpl2); e != nil { t.Errorf("%q: the same template in the other letter case is rejected: %v", tpl2, e); bad++ }
+		if dv2 := m.DefaultVariables(); len(dv2) != len(want) { t.Errorf("%q then %q on one template: default variables %v, one entry per name is %v", tpl, tpl2, dv2, want); bad++ }
 		if bad > 8 { t.Fatalf("stopping after %d failures", bad) }
 	}
 }
@@ -2785,7 +2835,7 @@ import (
 // (doubled quotes) otherwise, or always quoted; the text is tokenized with string decoding on and regrouped into rows
 // and fields, which must be the original table.
 func TestVerifReplay(t *testing.T) {
-	fields := []string{"", "a", "x y", "яé", "a,b", "q\"r", "\"", "\"\"", "l\r\nm", ";", "'", "\t", "a'b", ",\"\n"}
+	fields := []string{"\ufeffname", "", "a", "x y", "яé", "a,b", "q\"r", "\"", "\"\"", "l\r\nm", ";", "'", "\t", "a'b", ",\"\n"}
 	type cfg struct { seps []rune; quotes []rune }
 	cfgs := []cfg{{[]rune{','}, []rune{'"'}}, {[]rune{'\t'}, []rune{'"', '\''}}, {[]rune{';', ','}, []rune{'\''}}, {[]rune{0x3001, 0xFF1B}, []rune{0x300D, '"'}}}
 	eols := []string{"\n", "\r", "\r\n", "\n\r"}
